@@ -1042,7 +1042,8 @@ class GridMixin:
         kinds = ["hits", "holds"]
         if game == "sm":
             kinds += [k for k in ("rolls", "mines", "lifts", "fakes", "keysounds") if self.d.random() < 0.3]
-        objs = gen_grid_objects(self.d, tl, keys, n_measures, self.hi, kinds, min_gap=Fraction(0) if exact else Fraction(1, 48), lcm_cap=lcm_cap)
+        objs = gen_grid_objects(self.d, tl, keys, n_measures, self.hi, kinds,
+                                min_gap=Fraction(1, 48) if (not exact or game == "bms") else Fraction(0), lcm_cap=lcm_cap)
         if not any(objs.values()):
             objs["hits"].append(dict(offset=float(tl[0][2]), column=0))
         lists = {}
@@ -1139,4 +1140,141 @@ class GenC03(GridMixin, FileGen):
         return self.mk("convert", conv=c, h=h.name, outs=[self.new_h() for _ in range(n)])
 
 
-SCENARIOS = {"C01": GenC01, "C02": GenC02, "C03": GenC03, "C06": GenC06, "C16": GenC16, "C14": GenC14, "C12": GenC12, "C08": GenC08, "C13": GenC13, "C15": GenC15}
+class GenC04(FileGen):
+    game = "bms"
+    write_games = ()
+    read_games = ("bms",)
+    table = dict(install_read=20, reread=4, map_deepcopy=1)
+
+    def gen_doc(self, game):
+        from .gen_files import gen_bms_doc, gen_bms_fmt
+
+        doc, layout = gen_bms_doc(self.d, 5 if self.tier == "quick" else 8, odd_tempo_subdiv=bool(self.s.knobs.get("bms_odd_tempo_subdiv")))
+        self._layout = layout
+        return doc, gen_bms_fmt(self.d, self.s.knobs)
+
+    def p_install_read(self, game=None):
+        path = self.new_path("bms")
+        doc, fmt = self.gen_doc("bms")
+        self.path_layout = getattr(self, "path_layout", {})
+        self.path_layout[path] = self._layout
+        op = self.io_read_op("bms", path)
+        op["layout"] = self._layout
+        return [self.mk("fs.install", game="bms", path=path, doc=doc, fmt=fmt), op]
+
+    def p_reread(self):
+        ps = self._written_paths("bms")
+        if not ps:
+            return None
+        p = self.r.choice(ps)
+        op = self.io_read_op("bms", p)
+        op["layout"] = getattr(self, "path_layout", {}).get(p, "BME")
+        return op
+
+
+class GenC05(GridMixin, FileGen):
+    game = "bms"
+    write_games = ("bms",)
+    read_games = ("bms",)
+    table = dict(bms_new=12, install_read=4, write=12, reread=4, chain=4, map_deepcopy=1, rate=2, bms_many_bpms=0.12)
+    LAYOUT_COLS = {"BMS": 14, "BME": 16, "PMS": 9, "PMS_BME": 18, "PMS_5B": 5}
+
+    def setup(self):
+        super().setup()
+        self.path_layout = {}
+
+    def gen_doc(self, game):
+        from .gen_files import gen_bms_doc, gen_bms_fmt
+
+        doc, layout = gen_bms_doc(self.d, 4)
+        self._layout = layout
+        return doc, gen_bms_fmt(self.d, self.s.knobs)
+
+    def p_install_read(self, game=None):
+        path = self.new_path("bms")
+        doc, fmt = self.gen_doc("bms")
+        self.path_layout[path] = self._layout
+        op = self.io_read_op("bms", path)
+        op["layout"] = self._layout
+        return [self.mk("fs.install", game="bms", path=path, doc=doc, fmt=fmt), op]
+
+    def p_bms_new(self):
+        from .gen_files import gen_timeline
+
+        layout = self.d.choice(list(self.LAYOUT_COLS))
+        keys = self.d.randint(1, self.LAYOUT_COLS[layout])
+        nm = self.d.randint(1, 4 if self.tier == "quick" else 6)
+        tl = gen_timeline(self.d, nm, True, 0.0)
+        lists = self.grid_chart("bms", keys, tl, nm, True)
+        # arbitrary (off-grid) times for some objects: jitter smaller than the per-lane separation
+        if self.d.random() < 0.5:
+            for k in ("hits", "holds"):
+                for row in lists[k]:
+                    if self.d.random() < 0.4:
+                        row["offset"] = max(0.0, row["offset"] + self.d.choice([0.3, -0.2, 1.7, -1.1, 0.05]))
+        # samples: known ids, unknown files
+        table = {b"02": b"a.wav", b"03": b"kick.ogg", b"0A": b"snare.wav"} if self.d.random() < 0.7 else {}
+        for k in ("hits", "holds"):
+            for row in lists[k]:
+                row["sample"] = self.d.choice(list(table.values()) + [b"", b"unknown.wav"]) if table else self.d.choice([b"", b"unknown.wav"])
+        meta = dict(title=self.d.choice([b"Song", "曲".encode("shift_jis"), b"A B"]), artist=b"me", version=self.d.choice([b"1", b"12"]),
+                    samples_dict=table, ln_end_channel=self.d.choice([b"ZZ", b"ZZ", b"ZY"]))
+        h = self.new_h()
+        return self.mk("map.new", game="bms", lists=lists, meta=meta, how="items", out=h, keys=keys, layout=layout)
+
+    def p_bms_many_bpms(self):
+        """many tempo points, one per measure, up to the last measure number the format has (999)"""
+        n = self.d.choice([1000, 1000, 999, 500])
+        vals = [self.d.choice([120.0, 240.0, 60.0]) for _ in range(n)]
+        for i in range(1, n):
+            if vals[i] == vals[i - 1]:
+                vals[i] = 240.0 if vals[i - 1] != 240.0 else 120.0
+        t = 0.0
+        bp = []
+        for v in vals:
+            bp.append(dict(offset=t, bpm=v, metronome=4.0))
+            t += 240000.0 / v  # one measure each: every tempo point on a measure line, exact in binary for these values
+        hits = [dict(offset=bp[k]["offset"], column=self.d.randrange(5), sample=b"") for k in self.d.sample(range(n), 3)]
+        meta = dict(title=b"many", artist=b"me", version=b"1", samples_dict={}, ln_end_channel=b"ZY")
+        op = self.mk("map.new", game="bms", lists=dict(hits=hits, holds=[], bpms=bp), meta=meta, how="df", out=self.new_h(), keys=5, layout="PMS_5B")
+        path = self.new_path("bms")
+        w = self.io_write_op("bms", op["out"], path, first=True, faults=False)
+        w["layout"] = "PMS_5B"
+        self.path_layout[path] = "PMS_5B"
+        return [op, w]
+
+    def _layout_for_handle(self, h):
+        lay = h.meta.get("layout")
+        if lay:
+            return lay
+        mc = 0
+        for k in ("hits", "holds"):
+            df = h.obj.objs[k].df
+            if len(df):
+                mc = max(mc, int(df["column"].max()))
+        ok = [l for l, n in self.LAYOUT_COLS.items() if n > mc]
+        return self.r.choice(ok) if ok else "PMS_BME"
+
+    def io_write_op(self, game, h, path, first=False, faults=True):
+        op = super().io_write_op(game, h, path, first, faults)
+        hd = self.w.h.get(h)
+        lay = self.path_layout.get(path) or (self._layout_for_handle(hd) if hd is not None else "BME")
+        if hd is not None and hd.meta.get("read_layout"):
+            lay = hd.meta["read_layout"]
+        self.path_layout[path] = lay
+        op["layout"] = lay
+        return op
+
+    def io_read_op(self, game, path, out=None, faults=True):
+        op = super().io_read_op(game, path, out, faults)
+        op["layout"] = self.path_layout.get(path, "BME")
+        return op
+
+    def p_rate(self):
+        h = self.pick("map", pred=lambda x: x.game == "bms" and self._rate_ok(x))
+        if not h:
+            return None
+        return self.mk("map.rate", h=h.name, r=self.r.choice([0.5, 2, 1.5, 0.75, 1.25]), out=self.new_h())
+
+
+SCENARIOS = {"C01": GenC01, "C02": GenC02, "C04": GenC04, "C05": GenC05, "C03": GenC03, "C06": GenC06, "C16": GenC16, "C14": GenC14, "C12": GenC12, "C08": GenC08, "C13": GenC13, "C15": GenC15}
